@@ -4,7 +4,9 @@ Specs: Lifecycle (contract), LifecycleImpl (registry diff / watcher events / han
 contract), Lifecycle_Gen (all snapshot sequences + predicted callbacks), Lifecycle_Trace (trace validation).
 Harnesses: harness/pkg/supervisor/c20_*_test.go (business controllers through Supervisor.handleEvent) and
 harness/pkg/object/rawconfigtrafficcontroller/c20_*_test.go (the same plus traffic objects through
-RawConfigTrafficController -> TrafficController).
+RawConfigTrafficController -> TrafficController) and harness/pkg/object/trafficcontroller/c20_apply_test.go (the Apply path of
+the TrafficController - ApplyTrafficGate/ApplyPipeline, Delete*, Clean - used by every other owner of traffic objects;
+spec LifecycleApply).
 
 Phases (VERIF_PHASES): mc, mca (Apply path model), mcn (negative controls of the model), ambt, atv (package trafficcontroller: Apply path), mbt, tv, tvl, tvs (package supervisor), tmbt, ttv, ttvl, ttvs (package rawconfigtrafficcontroller);
 tvl / ttvl = TV with long bursts of snapshots and slow watchers; tvs / ttvs = TV of histories whose first burst of snapshots
@@ -39,13 +41,13 @@ def contract_cfg(names, biz, gate, vers, maxsnaps):
 
 
 def impl_cfg(names, biz, gate, pipe, vers, maxsnaps, watchers, panics, pinned=False, recover=True, cap=10, drop=False,
-             atomic_register=True, contract_only=False):
+             atomic_register=True, contract_only=False, skip_empty=False):
     inv = IMPL_INV.replace(" RegistryIsSnapshot WatcherViews", "") if contract_only else IMPL_INV
     return ("SPECIFICATION ISpec\n" + consts(names, biz, gate, pipe, vers, maxsnaps, model=True) +
             "  Watchers = %s\n  MaxPanics = %d\n  KindChangeIsUpdate = %s\n  Recover = %s\n  ChanCap = %d\n  DropWhenFull = %s\n"
-            "  AtomicRegister = %s\nVIEW view\nSYMMETRY NameSym\n"
+            "  AtomicRegister = %s\n  SkipEmpty = %s\nVIEW view\nSYMMETRY NameSym\n"
             % (sset(watchers), panics, "TRUE" if pinned else "FALSE", "TRUE" if recover else "FALSE", cap,
-               "TRUE" if drop else "FALSE", "TRUE" if atomic_register else "FALSE") + inv)
+               "TRUE" if drop else "FALSE", "TRUE" if atomic_register else "FALSE", "TRUE" if skip_empty else "FALSE") + inv)
 
 
 def apply_cfg(names, gate, pipe, vers, maxsnaps, store_on_inherit=True):
@@ -72,14 +74,23 @@ def run(ctx):
                        "traces = seeded random longer histories (bursts of 1-3 snapshots, and bursts of 14-32 snapshots pushed while "
                        "the handlers are held back by gated / slow callbacks; first burst of 5-8 snapshots pushed while the "
                        "supervisor is being created and its watchers are being registered; panicking callbacks) recorded from the real "
-                       "code and validated by TLC against the contract; non-trivial = distinct behaviours/traces with at least one "
+                       "code and validated by TLC against the contract; one snapshot in eight of a history is the empty configuration, "
+                       "delivered as a map without any entry, and the families s1 {} s3 / s1 s2 {} s4 are replayed exhaustively; "
+                       "the same contract decides the Apply path of a bare TrafficController (all sequences of 4 snapshots of one name over "
+                       "gate/pipeline x 3 versions, thorough: all canonical sequences of 3 snapshots over 2 names, sampled longer ones, random 30-40-snapshot histories); non-trivial = distinct behaviours/traces with at least one "
                        "inherit, close or kind change")
     ctx.assumptions += [
         "snapshots are handed to ObjectRegistry through the channel returned by a mocked cluster.Syncer.SyncPrefix "
         "(clustertest.MockedCluster); the etcd-backed syncer itself is C19",
         "callbacks are observed through test-only object kinds registered by the harness (two business-controller kinds, one "
         "traffic-gate-category kind, one pipeline-category kind); two specs of a kind are equal iff their `ver` field is",
-        "quiescence is detected by barrier objects (sentinel kinds) pushed with every snapshot, not by waiting",
+        "quiescence is detected by barrier objects (sentinel kinds) pushed with every snapshot that has objects, not by waiting; "
+        "a snapshot without any object is delivered as an empty map (no sentinel objects either) and has no barrier of its own: "
+        "in a lock-step replay what it causes is compared, together with what the next snapshot causes, at that snapshot's barrier",
+        "Apply path: the harness plays the owner of the traffic objects (as the mesh / ingress controllers do): per snapshot it "
+        "calls Apply* for every object of the snapshot (an unchanged one is re-applied or left alone), Delete* for every object "
+        "that is gone or Clean for a namespace of which nothing is left, in a random order; a change between gate and pipeline "
+        "category is a Delete in one map and an Apply in the other; a change of kind inside one category is not generated",
         "a call that panics counts as the call having been made; panics are scripted per (snapshot, name)",
         "the order between Close(old) and Init(new) of a kind change is not fixed by the property text and is left free; "
         "a kind change across watchers (controller <-> traffic object) is never pushed in the middle of a burst",
@@ -104,7 +115,8 @@ def run(ctx):
         return f
 
     strands = [strand(("mc", _mc, ())),
-               strand(("mca", _mc_apply, ()), ("ambt", _ambt, ()), ("atv", _atv, ())),
+               strand(("mca", _mc_apply, ()), ("ambt", _ambt, ())),
+               strand(("atv", _atv, ())),
                strand(("mcn", _mc_controls, ())),
                strand(("mbt", _mbt, (SUP,)), ("tv", _tv, (SUP, "std"))),
                strand(("tmbt", _mbt, (RCTC,)), ("ttv", _tv, (RCTC, "std"))),
@@ -202,6 +214,14 @@ def _mc_controls(ctx):
         else:
             ctx.inconclusive("TLC does not reject the late registration of a watcher: the start-up part of the refinement check "
                              "is vacuous\n" + r.out[-2000:])
+    # a registry goroutine that ignores a snapshot without any object never closes the last objects: TLC must find that
+    r = ctx.tlc_mc("LifecycleImpl", impl_cfg(["a", "b"], ["K1"], [], [], [1, 2], 2, ["sup"], 0, skip_empty=True, contract_only=True),
+                   label="impl with a registry that ignores the empty configuration", expect_ok=False, count=False, timeout=600)
+    if r.violated:
+        ctx.log("model sanity: ignoring the snapshot without any object violates %s" % r.violated)
+    else:
+        ctx.inconclusive("TLC does not reject the registry that ignores the empty configuration: that part of the refinement check "
+                         "is vacuous\n" + r.out[-2000:])
     # an Apply whose inherit branch does not store the new generation keeps the first generation for ever: TLC must find that
     r = ctx.tlc_mc("LifecycleApply", apply_cfg(["a", "b"], ["G1"], [], [1, 2, 3], 3, store_on_inherit=False),
                    label="Apply path without Store on the inherit branch", expect_ok=False, count=False, timeout=600)
@@ -245,9 +265,10 @@ def _gen(ctx, pkg):
         behs += [b for b in dump("2 names, 2 snapshots, <= 1 panic", gen_cfg(["a", "b"], "Names2", ["K1", "K2"], [], "SupKinds", [1, 2], 2, 1), 2)
                  if any(st["pan"] for st in b)]
         # sequences that pass through the EMPTY configuration (a snapshot without any object, delivered as such):
-        # all  s1, {}, s3  over 2 names x 2 kinds x 2 versions and all  s1, s2, {}, s4  over 2 names x 1 kind x 2 versions
+        # all  s1, {}, s3  over 2 names x 2 kinds x 2 versions (thorough: and all  s1, s2, {}, s4  over 2 names x 1 kind x 2 versions)
         behs += dump("2 names, s1 {} s3, no panic", gen_cfg(["a", "b"], "Names2", ["K1", "K2"], [], "SupKinds", [1, 2], 3, 0, empty_at=(2,)), 3)
-        behs += dump("2 names, 1 kind, s1 s2 {} s4, no panic", gen_cfg(["a", "b"], "Names2", ["K1"], [], "OneKind", [1, 2], 4, 0, empty_at=(3,)), 4)
+        if not q:
+            behs += dump("2 names, 1 kind, s1 s2 {} s4, no panic", gen_cfg(["a", "b"], "Names2", ["K1"], [], "OneKind", [1, 2], 4, 0, empty_at=(3,)), 4)
         if q:
             behs += sim(gen_cfg(["a", "b", "c"], "Names3", ["K1", "K2"], [], "SupKinds", [1, 2], 3, 2, False), 400)
         else:
@@ -358,14 +379,16 @@ def _ambt(ctx):
         return [b[-1] for b in ctx.tlc_simulate("Lifecycle_Gen", cfg, num=num, depth=length + 1, timeout=1500) if b and len(b[-1]) == length]
 
     G = ["G1", "P1"]
-    # all canonical sequences of 3 snapshots (init, change, change / unchanged / delete ...) over 2 names x (gate, pipeline) x 2 versions
-    behs += dump("2 names, 3 snapshots, no panic", gen_cfg(["a", "b"], "Names2", [], G, "ApplyKinds", [1, 2], 3, 0), 3)
+    # all sequences of 4 snapshots of one name (init, change, change, delete / unchanged / other category ...) over
+    # (gate, pipeline) x 3 versions; thorough: all canonical sequences of 3 snapshots over 2 names x (gate, pipeline) x 2 versions
+    behs += dump("1 name, 4 snapshots, no panic", gen_cfg(["a"], "Names1", [], G, "ApplyKinds", [1, 2, 3], 4, 0), 4)
     if q:
         behs += sim(gen_cfg(["a", "b", "c"], "Names3", [], G, "ApplyKinds", [1, 2, 3], 6, 2, False), 500, 6)
     else:
-        behs += [b for b in dump("2 names, 3 snapshots, <= 1 panic", gen_cfg(["a", "b"], "Names2", [], G, "ApplyKinds", [1, 2], 3, 1), 3)
+        behs += dump("2 names, 3 snapshots, no panic", gen_cfg(["a", "b"], "Names2", [], G, "ApplyKinds", [1, 2], 3, 0), 3)
+        behs += [b for b in dump("1 name, 4 snapshots, <= 1 panic", gen_cfg(["a"], "Names1", [], G, "ApplyKinds", [1, 2, 3], 4, 1), 4)
                  if any(st["pan"] for st in b)]
-        behs += dump("2 names, gate only, 3 versions, 4 snapshots, no panic", gen_cfg(["a", "b"], "Names2", [], ["G1"], "GateOnly", [1, 2, 3], 4, 0), 4)
+        behs += dump("2 names, gate only, 2 versions, 4 snapshots, no panic", gen_cfg(["a", "b"], "Names2", [], ["G1"], "GateOnly", [1, 2], 4, 0), 4)
         behs += sim(gen_cfg(["a", "b", "c"], "Names3", [], G, "ApplyKinds", [1, 2, 3], 8, 3, False), 6000, 8)
     random.Random(ctx.seed * 7919 + 3).shuffle(behs)
     rc, out = ctx.go_test(TC, "^TestVerifC20Build$")
@@ -408,7 +431,7 @@ def _ambt(ctx):
 
 def _atv(ctx):
     short = "trafficcontroller"
-    n, steps = (30, 30) if ctx.quick else (400, 40)
+    n, steps = (30, 30) if ctx.quick else (200, 40)
     tp = ctx.path("c20_tc_trace.ndjson")
     rc, out = ctx.go_test(TC, "^TestVerifC20ApplyTrace$", env={"VERIF_OUT": tp, "VERIF_N": n, "VERIF_STEPS": steps, "VERIF_NAMES": 3,
                                                                "VERIF_SALT": 0}, timeout=1500)
